@@ -228,6 +228,14 @@ func (g *ggen) spanTable(rows int) {
 	g.buf.WriteString("<tbody>")
 	for i := 0; i < rows; i++ {
 		tall := 2 + r.Intn(6)
+		if r.P(1, 4) { // a row that must not be split, two cells
+			g.buf.WriteString(`<tr style="break-inside:avoid">`)
+			g.cell("", 2+r.Intn(3))
+			g.cell(`colspan="2"`, 1+r.Intn(3))
+			g.buf.WriteString("</tr>")
+			g.feat["table-row-avoid"] = true
+			continue
+		}
 		switch r.Intn(4) {
 		case 0: // colspan before the tall cell
 			g.buf.WriteString("<tr>")
@@ -260,6 +268,45 @@ func (g *ggen) spanTable(rows int) {
 	}
 	g.buf.WriteString("</tbody></table>")
 	g.feat["span-table"] = true
+}
+
+// gluedInlines writes a wrapped paragraph with inline elements glued (no white space) to the text that
+// follows them, so that lines overflow at an element boundary without a break opportunity and are broken
+// again inside an inline child already placed on the line; some of the inline elements are stacking
+// contexts themselves (position:relative / opacity / transform on a span ending in a nested inline).
+func (g *ggen) gluedInlines() {
+	r := g.r
+	fmt.Fprintf(&g.buf, `<div style="%s">`, g.breaks())
+	n := 2 + r.Intn(4)
+	for i := 0; i < n; i++ {
+		if i > 0 {
+			g.buf.WriteString(" ")
+		}
+		switch r.Intn(5) {
+		case 0: // <i>tok tok</i>tok
+			g.buf.WriteString("<i>")
+			g.lines(1+r.Intn(3), true)
+			g.buf.WriteString("</i>" + g.tok())
+			g.feat["glued-inline"] = true
+		case 1: // nested
+			g.buf.WriteString("<b>" + g.tok() + " <i>")
+			g.lines(1+r.Intn(2), true)
+			g.buf.WriteString("</i></b>" + g.tok())
+			g.feat["glued-inline"] = true
+		case 2: // an inline stacking context whose last child is an inline box
+			st := rng.Pick(r, "position:relative", "opacity:0.5", "transform:translate(0,0)", "position:relative;z-index:1")
+			fmt.Fprintf(&g.buf, `<span style="%s">%s <em>`, st, g.tok())
+			g.lines(1+r.Intn(2), true)
+			g.buf.WriteString("</em></span>")
+			if r.Bool() {
+				g.buf.WriteString(g.tok())
+			}
+			g.feat["inline-stacking-context"] = true
+		default:
+			g.buf.WriteString(g.tok())
+		}
+	}
+	g.buf.WriteString("</div>")
 }
 
 // visibilityNest writes hidden ancestors with visible descendants, block and inline level: everything is
@@ -311,7 +358,7 @@ func (g *ggen) positionedNest(depth int) {
 
 func (g *ggen) item(depth int, allowOOF bool) {
 	r := g.r
-	c := r.Intn(24)
+	c := r.Intn(27)
 	switch {
 	case c <= 4 || depth > 2: // paragraph
 		sp := r.P(1, 4)
@@ -372,6 +419,8 @@ func (g *ggen) item(depth int, allowOOF bool) {
 		g.footnotePara(2+r.Intn(5), 1+r.Intn(3), g.breaks())
 	case c == 19 || (c == 17 && !g.footnotes): // table with spans and tall cells
 		g.spanTable(1 + r.Intn(4))
+	case c >= 24: // glued inline elements, inline-level stacking contexts
+		g.gluedInlines()
 	case c == 22 || c == 23: // hidden ancestors with visible descendants
 		g.visibilityNest()
 	case c == 20 || c == 21: // nested positioned boxes / stacking contexts
@@ -395,9 +444,21 @@ func (g *ggen) item(depth int, allowOOF bool) {
 		}
 		g.buf.WriteString("<tbody>")
 		k := 1 + r.Intn(7)
+		avoidRows := r.P(1, 2) // rows that must not be split: pushed whole to the next page
 		for i := 0; i < k; i++ {
-			g.buf.WriteString(`<tr><td style="padding:0">`)
-			g.lines(1+r.Intn(2), false)
+			n := 1 + r.Intn(2)
+			trStyle, tdStyle := "", "padding:0"
+			if avoidRows {
+				n = 2 + r.Intn(3)
+				if r.Bool() {
+					trStyle = ` style="break-inside:avoid"`
+				} else {
+					tdStyle += ";break-inside:avoid"
+				}
+				g.feat["table-row-avoid"] = true
+			}
+			fmt.Fprintf(&g.buf, `<tr%s><td style="%s">`, trStyle, tdStyle)
+			g.lines(n, false)
 			g.buf.WriteString("</td></tr>")
 		}
 		g.buf.WriteString("</tbody>" + foot + "</table>")
@@ -594,7 +655,7 @@ func runGeneral(m *mp.Model, r *rng.R, n int, fonts text.FontConfiguration, out 
 		var pages []*bo.PageBox
 		var rec *render.Rec
 		// the draw trace is judged on every fourth document and on every document with nested positioned boxes
-		draw := i%4 == 0 || doc.Features["positioned-nest"] || doc.Features["visibility"]
+		draw := i%4 == 0 || doc.Features["positioned-nest"] || doc.Features["visibility"] || doc.Features["inline-stacking-context"]
 		ntok := len(doc.FlowOf)
 		LimitPages(8*(2*ntok+10) + 40)
 		o := render.Guard(8*time.Second, func() {
